@@ -8,7 +8,7 @@ From PD Require Import Model.Heap Proofs.Heap Proofs.HeapWf.
 Local Open Scope nat_scope.
 
 Definition cnt := count_occ Nat.eq_dec.
-Ltac nlia := unfold loc, sloc, cid in *; lia.
+Ltac nlia := unfold loc, sloc, cid, tloc in *; lia.
 
 Definition Sep (h : heap) : Prop :=
   NoDup (objs h) /\ NoDup (roots h) /\ NoDup (concat (map tc_ems (tcs h))).
